@@ -11,6 +11,7 @@ import (
 	metav1 "k8s.io/apimachinery/pkg/apis/meta/v1"
 
 	"verif/h"
+	"verif/ref"
 	"verif/sim"
 )
 
@@ -265,11 +266,16 @@ func c19Scenario(name string, foreignFirst bool) *h.Scenario {
 
 // RemovalProtocol checks, along histories: decrement on every terminate, the cloud batch fully
 // accepted before any Kubernetes delete, the minimum pre-check, and what the not-in-group stop does.
-type RemovalProtocol struct{}
+type RemovalProtocol struct{ lock lockTracker }
 
-func (RemovalProtocol) Key() string { return "" }
-func (RemovalProtocol) AfterScan(ctx *h.ScanCtx) []h.Violation {
+func (m *RemovalProtocol) Key() string { return m.lock.key() }
+func (m *RemovalProtocol) AfterScan(ctx *h.ScanCtx) []h.Violation {
 	var out []h.Violation
+	if m.lock.a == nil || ctx.Fresh {
+		m.lock.reset()
+	}
+	m.lock.now = ctx.Start
+	defer m.lock.observe(ctx)
 	add := func(sig, msg string) {
 		out = append(out, h.Violation{Prop: "C19", Sig: sig, Msg: fmt.Sprintf("scan %d: %s", ctx.Scan, msg)})
 	}
@@ -313,6 +319,87 @@ func (RemovalProtocol) AfterScan(ctx *h.ScanCtx) []h.Violation {
 		}
 	}
 	_ = run
+	// a node that escalator selects for removal and that is not a member of its group's ASG must
+	// stop the controller with the not-in-group error (fault-free scans, no minimum in the way)
+	if !ctx.Faulted && ctx.Res.Panic == nil && !ctx.Res.Killed && !ctx.Res.Exit {
+		for _, g := range ctx.Groups {
+			if g.Dry || g.CloudMin != 0 || len(g.Nodes) < g.Min || len(g.Nodes) > g.Max || len(g.U) < g.Min || m.lock.inWindow(g, ctx.Start) {
+				continue
+			}
+			a := ctx.H.W.FindASG(g.ASGName)
+			if a == nil {
+				continue
+			}
+			member := map[string]bool{}
+			for _, in := range a.Instances {
+				member[sim.ProviderID(in.AZ, in.ID)] = true
+			}
+			// instances terminated during this scan were members when the scan began
+			for _, e := range ctx.Entries {
+				if e.Op == sim.OpTerminate && e.Err == "" {
+					if _, n := ctx.NodeOfInstance(e.Target); n != nil {
+						member[n.Spec.ProviderID] = true
+					}
+				}
+			}
+			dec := ref.Decide(g, ctx.Start)
+			d := dec.Class
+			if dec.Starve || dec.MaxAge || dec.Edge != "" {
+				d = "up" // a trigger (or an undecided edge) may turn the scan into a scale-up: only the force reaper is certain to run
+			}
+			soft, hard := softOf(g.Spec), hardOf(g.Spec)
+			// batch sizes of the two reapers (the provider refuses a whole batch that would breach the
+			// cloud minimum before it looks at membership)
+			batch := map[string]int{}
+			for _, n := range g.Nodes {
+				if n.Spec.Unschedulable {
+					continue
+				}
+				_, force := h.HasTaint(n, h.ForceTaintKey)
+				tt, readable := h.TaintTime(n)
+				age := ctx.Start.Sub(tt)
+				switch {
+				case force && g.PodsOn[n.Name] == 0:
+					batch["force-reaper"]++
+				case !force && readable && n.Annotations[h.NoDeleteKey] == "" && (age > hard || (age > soft && g.PodsOn[n.Name] == 0)):
+					batch["grace-reaper"]++
+				}
+			}
+			for _, n := range g.Nodes {
+				if n.Spec.Unschedulable || member[n.Spec.ProviderID] {
+					continue
+				}
+				_, force := h.HasTaint(n, h.ForceTaintKey)
+				tt, readable := h.TaintTime(n)
+				age := ctx.Start.Sub(tt)
+				pods := g.PodsOn[n.Name]
+				selected := false
+				path := "grace-reaper"
+				switch {
+				case force && pods == 0:
+					path = "force-reaper"
+					selected = d == "fast" || d == "slow" || d == "idle" || d == "up"
+				case !force && readable && n.Annotations[h.NoDeleteKey] == "" && (age > hard || (age > soft && pods == 0)):
+					selected = d == "fast" || d == "slow" || d == "idle"
+				}
+				if !selected {
+					continue
+				}
+				desired := g.CloudDesired
+				if path == "grace-reaper" {
+					desired -= int64(batch["force-reaper"]) // at most: the force reaper ran first
+				}
+				if desired-int64(batch[path]) < g.CloudMin || desired <= g.CloudMin || (path == "grace-reaper" && batch["force-reaper"] > 0) {
+					continue // the minimum pre-check may legitimately refuse the batch first
+				}
+				ctx.H.Cov["c19.non-member-selected-for-removal"]++
+				if _, ok := ctx.Res.Err.(*cloudprovider.NodeNotInNodeGroup); !ok {
+					add("C19/not-in-group-not-fatal/"+path, fmt.Sprintf("node %s of group %s is due for removal and is not a member of %s, but the scan returned %v instead of the not-in-group error", n.Name, g.Name, g.ASGName, ctx.Res.Err))
+				}
+				break
+			}
+		}
+	}
 	if ne, ok := ctx.Res.Err.(*cloudprovider.NodeNotInNodeGroup); ok {
 		ctx.H.Cov["c19.not-in-group-stops"]++
 		g, n := ctx.GroupOfNode(ne.NodeName)
@@ -425,7 +512,7 @@ func init() {
 			"histories (deviation-bounded DFS): the C01 worlds with every terminate / Kubernetes delete call failing, two-group worlds holding a non-member node eligible for removal, two removal batches in one scan against a tight cloud minimum, and a tight cloud minimum edited at run time; non-trivial = every grid case and every scan that removed a node; distinct by parameters / (slot, class, node)",
 		Grid:      c19Grid,
 		Scenarios: C19Scenarios,
-		Monitors:  func() []h.Monitor { return []h.Monitor{RemovalProtocol{}, &NearMiss{Seen: map[string]struct{}{}}} },
+		Monitors:  func() []h.Monitor { return []h.Monitor{&RemovalProtocol{}, &NearMiss{Seen: map[string]struct{}{}}} },
 		Bound: func(tier string) int {
 			if tier == "thorough" {
 				return 3
